@@ -132,7 +132,7 @@ package parser
 //@   modifies nothing
 
 //@ func parseVarLiteral
-//@   ensures [node] {C15} result != nil ==> fresh(result) && tokRangeIs(result.Range, tk)
+//@   ensures [node] {C15} result != nil ==> fresh(result) && tokRangeIs(result.Range, tk) && result.Name == ssub(tk.GetText(), 1, slen(tk.GetText()))
 //@   modifies nothing
 
 //@ func parseVarType
@@ -195,6 +195,7 @@ package parser
 //@ func parseStringLiteralCtx
 //@   requires [ctx] stringCtx != nil
 //@   ensures [node] {C15} result != nil && fresh(result) && rangeIs(result.Range, stringCtx)
+//@   ensures [text] {C15} result.String == ssub(stringCtx.GetText(), 1, slen(stringCtx.GetText()) - 1)
 //@   modifies nothing
 
 //@ func parseValueExpr
@@ -203,11 +204,15 @@ package parser
 //@   ensures [kind] {C15} (typeis(valueExprCtx, *antlr.AccountLiteralContext) ==> typeis(result, *AccountLiteral)) && (typeis(valueExprCtx, *antlr.AssetLiteralContext) ==> typeis(result, *AssetLiteral)) && (typeis(valueExprCtx, *antlr.VariableExprContext) ==> typeis(result, *Variable)) && (typeis(valueExprCtx, *antlr.StringLiteralContext) ==> typeis(result, *StringLiteral)) && (typeis(valueExprCtx, *antlr.NumberLiteralContext) ==> typeis(result, *NumberLiteral)) && (typeis(valueExprCtx, *antlr.InfixExprContext) ==> typeis(result, *BinaryInfix)) && (valueExprCtx == nil ==> result == nil)
 //@   ensures [infix] {C15} typeis(valueExprCtx, *antlr.InfixExprContext) ==> exprAt(as(result, *BinaryInfix).Left, as(valueExprCtx, *antlr.InfixExprContext).GetLeft()) && exprAt(as(result, *BinaryInfix).Right, as(valueExprCtx, *antlr.InfixExprContext).GetRight()) && as(result, *BinaryInfix).Operator == as(valueExprCtx, *antlr.InfixExprContext).GetOp().GetText()
 //@   ensures [asset-text] {C15} typeis(valueExprCtx, *antlr.AssetLiteralContext) ==> as(result, *AssetLiteral).Asset == valueExprCtx.GetText()
+//@   ensures [account-name] {C15} typeis(valueExprCtx, *antlr.AccountLiteralContext) ==> as(result, *AccountLiteral).Name == ssub(valueExprCtx.GetText(), 1, slen(valueExprCtx.GetText()))
+//@   ensures [string-text] {C15} typeis(valueExprCtx, *antlr.StringLiteralContext) ==> as(result, *StringLiteral).String == ssub(valueExprCtx.GetText(), 1, slen(valueExprCtx.GetText()) - 1)
+//@   ensures [variable-name] {C15} typeis(valueExprCtx, *antlr.VariableExprContext) ==> as(result, *Variable).Name == ssub(valueExprCtx.GetText(), 1, slen(valueExprCtx.GetText()))
 //@   modifies nothing
 
 //@ func variableLiteralFromCtx
 //@   requires [ctx] ctx != nil && slen(ctx.GetText()) >= 1
 //@   ensures [node] {C15} result != nil && fresh(result) && rangeIs(result.Range, ctx)
+//@   ensures [name] {C15} result.Name == ssub(ctx.GetText(), 1, slen(ctx.GetText()))
 //@   modifies nothing
 
 //@ func parsePortionSource
@@ -347,11 +352,14 @@ package parser
 // every token of the stream is a token
 //@ axiom [t3-tokens] foralltyped(t, antlr.Token, t != nil ==> t.GetLine() >= 1 && t.GetColumn() >= 0)
 
+// a number literal that does not fit in an int is never accepted silently: it yields at least one error
 //@ func Parse
 //@   ensures [source] {C15} result.Source == input
+//@   ensures [out-of-range-reported] {C14} forallidx(i, 0, len(stream.GetAllTokens()), stream.GetAllTokens()[i].GetTokenType() == numberTokenType && !atoi_ok(stream.GetAllTokens()[i].GetText()) ==> len(result.Errors) >= 1)
 //@   modifies allof(ErrorListener), allelems(ParserError)
 //@   loop 1
 //@     invariant [listener] listener != nil
+//@     invariant [reported] {C14} forallidx(i, 0, iter, stream.GetAllTokens()[i].GetTokenType() == numberTokenType && !atoi_ok(stream.GetAllTokens()[i].GetText()) ==> len(listener.Errors) >= 1)
 
 // constructors of the runtime and of the generated recogniser return their object
 //@ extern v4.NewInputStream(data)
